@@ -4,7 +4,7 @@ import ast
 from .core import Matcher
 from .core import ( rule, Result, AnalysisError, dotted, call_name, is_call_to, names_in, attrs_in, walk_no_nested,
                     norm_text, dotted_in, stmt_of, pmatch, pfind, txt )
-from .fold import try_fold
+from .fold import try_fold, fold, NoFold
 from .cfg import CFG
 
 CLIENT = 'server/enip/client.py'
@@ -86,6 +86,21 @@ def s_complete( ctx ):
                 # the check must be on the normal-completion path: not inside the loop body
                 if src.enclosing( a, ( ast.For, ast.While )) is None:
                     good = a
+        # a request counts as issued BEFORE it is handed on: inside a generator the statements after `yield` run only when the consumer asks
+        # for the next item - a counter advanced after the yield misses the request that was sent last and never answered
+        for cname, incs in feeds.items():
+            for inc in incs:
+                g_ = src.enclosing( inc, ( ast.FunctionDef, ))
+                f_ = src.enclosing( inc, ( ast.For, ))
+                if g_ is None or f_ is None or not any( is_call_to( c_, 'self.issue' ) for c_ in ast.walk( f_.iter )):
+                    continue
+                ys = [ y for y in walk_no_nested( f_ ) if isinstance( y, ast.Expr ) and isinstance( y.value, ast.Yield ) and y in f_.body ]
+                if ys and inc in f_.body and f_.body.index( inc ) > f_.body.index( ys[0] ):
+                    res.bad( src, inc, '%s: issued-request counter advanced after the request was yielded: %s' % ( d, norm_text( inc )),
+                             'if the reply stream ends while the generator is suspended at the yield, the request that was sent but never answered is not counted: harvested == issued holds and the results end one short without any error' )
+                    good = good if good is None else good
+                elif ys and inc in f_.body:
+                    res.ok( src, inc, '%s: a request is counted as issued before it is yielded' % d )
         if good is not None:
             res.ok( src, good, '%s: completeness check `%s` after the harvest loop' % ( d, norm_text( good.test )))
         else:
@@ -655,4 +670,103 @@ def t_opoffset( ctx ):
             res.ok( src, s, "the offset is stored whenever the '+' part of the text is non-empty ( '+0' included ), as int( text )" )
         else:
             res.bad( src, s, s, "the stored offset must be int( <the text after '+'> )" )
+    return res
+
+
+@rule( 'T-PATHDEFAULTS', props=( 'C12', ), floor=2 )
+def t_pathdefaults( ctx ):
+    """device.parse_path_elements hands the caller-supplied default element / count to the LAST component only, unchanged: the parameters it
+    forwards as keywords are not re-bound on any path before that call (the temporaries of the leading components use other names)"""
+    res = Result( 'T-PATHDEFAULTS' )
+    src = ctx.src( DEVICE )
+    fn = src.get( 'parse_path_elements' )
+    params = [ a.arg for a in fn.args.args[1:] ]
+    cfg = CFG( fn, may_raise=lambda n_: False )
+    n = 0
+    for c in ast.walk( fn ):
+        if not ( isinstance( c, ast.Call ) and call_name( c ) == 'parse_path_component' ):
+            continue
+        for k in c.keywords:
+            if not ( isinstance( k.value, ast.Name ) and k.value.id in params ):
+                continue
+            n += 1
+            P = k.value.id
+            cn = [ nd for nd in cfg.nodes if nd.own() is not None and any( c is x for x in ast.walk( nd.own())) ]
+            stores = [ nd for nd in cfg.nodes if nd.kind in ( 'stmt', 'for' ) and nd.stmt is not None and nd not in cn and any(
+                isinstance( t, ast.Name ) and t.id == P and isinstance( t.ctx, ast.Store ) for t in ast.walk( nd.stmt if nd.kind == 'stmt' else nd.stmt.target )) ]
+            before = [ s_ for s_ in stores if cn and cn[0] in cfg.reachable( s_ ) ]
+            if before:
+                res.bad( src, before[0].stmt, 'parse_path_elements re-binds its parameter %r before forwarding it: %s' % ( P, norm_text( before[0].stmt )[:70] ),
+                         'the last component of a dotted path then inherits the index / count of the component before it instead of the caller\'s default: Motor[3].Speed addresses Speed[3]' )
+            else:
+                res.ok( src, c, 'the caller\'s default %r reaches the last component unchanged' % P )
+    if n < 2:
+        raise AnalysisError( 'parse_path_elements: forwarding of the default element / count not found (%d)' % n )
+    return res
+
+
+@rule( 'T-CONTEXT', props=( 'C06', 'C13' ), floor=2 )
+def t_context( ctx ):
+    """client sender contexts: format_context pads a context on the RIGHT to exactly 8 octets, parse_context removes only that right padding -
+    decided by evaluating both expressions on sample contexts (leading NULs, inner NULs, full length) and requiring the round trip"""
+    res = Result( 'T-CONTEXT' )
+    src = ctx.src( CLIENT )
+    ff = src.get( 'format_context' ); pf = src.get( 'parse_context' )
+    fr = [ r for r in ff.body if isinstance( r, ast.Return ) ]; pr = [ r for r in pf.body if isinstance( r, ast.Return ) ]
+    if not fr or not pr:
+        raise AnalysisError( 'format_context / parse_context: return not found' )
+    FA, PA = ff.args.args[0].arg, pf.args.args[0].arg
+    samples = ( b'1', b'12345678', b'\x00\x00\x00\x00\x00\x00\x01\x02', b'\x00A\x00B', b'' )
+    wrong = []
+    for c in samples:
+        try:
+            wire = fold( fr[-1].value, { FA: c } )
+            back = fold( pr[-1].value, { PA: wire } )
+        except NoFold as exc:
+            raise AnalysisError( 'format_context / parse_context outside the modelled subset: %s' % str( exc )[:100] )
+        res.cells += 1
+        if len( wire ) != 8 or not bytes( wire ).startswith( c ) or bytes( back ) != c.rstrip( b'\x00' ):
+            wrong.append(( c, bytes( wire ), bytes( back )))
+    if wrong:
+        c, wire, back = wrong[0]
+        res.bad( src, pr[-1] if len( wire ) == 8 and wire.startswith( c ) else fr[-1], 'context %r -> wire %r -> reported %r' % ( c, wire, back ),
+                 'the context reported for a reply must be the context that was sent (only the right NUL padding removed): otherwise two different requests become indistinguishable, or a reply no longer matches its own request' )
+    else:
+        res.ok( src, fr[-1], 'format_context: right-padded to 8 octets; parse_context: removes exactly that padding (%d sample contexts round-trip)' % len( samples ))
+        res.ok( src, pr[-1], 'a context with leading or inner NUL octets is reported unchanged' )
+    return res
+
+
+@rule( 'P-POLL', props=( 'C13', ), floor=2 )
+def p_poll( ctx ):
+    """poll.run: the values handed to process() are those of the poll that has just succeeded - the delivery is not reachable from the failure
+    handler of the same cycle (otherwise the previous poll's values are delivered again for polls whose replies never arrived)"""
+    res = Result( 'P-POLL' )
+    src = ctx.src( POLL )
+    fn = src.get( 'run' )
+    cfg = CFG( fn )
+    M = Matcher()
+    lp = M.find( fn, '( _lst, _dly, _res ) = loop( via, last_poll=_l, **kwds )' )
+    if lp is None:
+        raise AnalysisError( 'poll.run: call of loop( via, ... ) not found' )
+    RES = M.name( '_res' )
+    deliver = [ nd for nd in cfg.nodes if nd.kind == 'for' and dotted( nd.expr ) == RES ]
+    if not deliver:
+        res.bad( src, fn, 'poll.run: delivery of the polled values', 'the polled ( parameter, value ) pairs must be handed to process()' )
+        return res
+    outer = [ w for w in fn.body if isinstance( w, ast.While ) ]
+    whead = [ nd for nd in cfg.nodes if nd.kind == 'test' and outer and nd.stmt is outer[0] ]
+    handlers = [ nd for nd in cfg.nodes if nd.kind == 'handler' ]
+    stale = [ d for d in deliver for h in handlers if d in cfg.reachable( h, stop=whead ) ]
+    if stale:
+        res.bad( src, stale[0].stmt, 'poll.run: `for ... in %s` is reachable from the failure handler of the same cycle' % RES,
+                 'after a failed poll %s still holds the values of the last successful one: they are delivered again, as if they were the values of the poll that failed' % RES )
+    else:
+        res.ok( src, deliver[0].stmt, 'the polled values are delivered only on the success path of the cycle that obtained them' )
+    # ... and the delivery uses the result of this cycle's loop() call
+    ln = cfg.node_of( lp )
+    if all( cfg.must_pass( whead[0], d, [ ln ], correlated=False ) for d in deliver ) if whead and ln is not None else False:
+        res.ok( src, lp, 'every delivery is preceded by this cycle\'s loop() call' )
+    else:
+        res.bad( src, deliver[0].stmt, 'delivery without a preceding loop() call in the same cycle', 'values must come from the poll of the same cycle' )
     return res
